@@ -55,14 +55,16 @@ Print Assumptions C35_no_data_race_partial.
 
 (* The defective rows of the pinned tree (cuckooSentCache.kept swapped by Resize; fileConfig hashes
    and callbacks read outside mux; ConfigWatcher.done assigned in monitor; InMemCollector.reload
-   created after the callback is registered; RedisPubsubPeers hash/callbacks unguarded) are rejected
+   created after the callback is registered; RedisPubsubPeers hash/callbacks unguarded;
+   SamplerFactory.sharedDynsamplers length read outside the mutex) are rejected
    by the same check: each was repaired by a fix: commit, after which C35_instance_ok holds. *)
 Theorem C35_pinned_tree_rows_rejected :
   well_protected c35_singleton (map mk_site pinned_kept) = false /\
   well_protected c35_singleton (map mk_site pinned_filecfg) = false /\
   well_protected c35_singleton (map mk_site pinned_watcher) = false /\
   well_protected c35_singleton (map mk_site pinned_collector_reload) = false /\
-  well_protected c35_singleton (map mk_site pinned_peers) = false.
+  well_protected c35_singleton (map mk_site pinned_peers) = false /\
+  well_protected c35_singleton (map mk_site pinned_sampler) = false.
 Proof. exact pinned_rows_rejected. Qed.
 Print Assumptions C35_pinned_tree_rows_rejected.
 
